@@ -193,7 +193,10 @@ def gen_device(rng, n_terminals=2, n_holes=0, probes=2, size="small", film_kind=
         names = ["source", "drain", "t3", "t4"]
         for k, side in enumerate(sides):
             frac = _r(rng, 0.31, 0.77)
-            off = _r(rng, -0.08, 0.08)
+            # the terminal must cover at least one boundary edge centre of the mesh
+            side_len = H if side in ("left", "right") else 0.6 * W
+            frac = max(frac, min(0.92, 1.6 * mel / side_len))
+            off = _r(rng, -0.08, 0.08) * (1 - frac)
             thick = 0.04 * xi_
             if side in ("left", "right"):
                 cx = (-W / 2 if side == "left" else W / 2)
